@@ -28,6 +28,41 @@ static ssize_t nextChar(const struct iovec *curr, const struct iovec *cont, size
 	
 	return part;
 }
+/* position of first whitespace outside of quotes, state is kept over all parts */
+static ssize_t nextSpace(const struct iovec *curr, const struct iovec *cont, size_t clen)
+{
+	size_t pos = 0;
+	int match = 0, prev = ' ';
+	
+	while (1) {
+		const uint8_t *base = curr->iov_base;
+		size_t i, len = curr->iov_len;
+		
+		for (i = 0; i < len; ++i) {
+			int c = base[i];
+			/* unset if current is valid end */
+			if (match) {
+				if (c == match && prev != '\\') match = 0;
+				prev = c;
+			}
+			/* mark if current is in delimiters */
+			else if (c == '\'' || c == '"') {
+				match = c;
+			}
+			else if (memchr("\t \n\r\v", c, 5)) {
+				return pos + i;
+			}
+			else {
+				prev = c;
+			}
+		}
+		if (!clen--) {
+			return -2;
+		}
+		pos += len;
+		curr = cont++;
+	}
+}
 static int notSpace(int c, void *con)
 {
 	(void) con;
@@ -90,11 +125,8 @@ extern ssize_t mpt_message_argv(MPT_STRUCT(message) *msg, int sep)
 	}
 	/* find space character not in escapes */
 	if (!isgraph(sep)) {
-		if ((part = mpt_memtok(&curr, 1, "\t \n\r\v", NULL, "'\"")) >= 0) {
+		if ((part = nextSpace(&curr, cont, clen)) >= 0) {
 			return part;
-		}
-		if (clen && (part = mpt_memtok(cont, clen, "\t \n\r\v", NULL, "'\"")) >= 0) {
-			return curr.iov_len + part;
 		}
 		sep = 0;
 	}
